@@ -28,7 +28,7 @@ TOL = Fraction(1, 2 ** 40)
 DTYPES = ["uint8", "int8", "int16", "uint16", "int32", "uint32", "int64", "uint64", "float32", "float64",
           "complex64"]
 NG_TYPES = ("uint8", "uint16", "uint32", "uint64", "float32")
-SHARDINGS = [None, "2,5,3", "6,0,9", "0,7,1", "1,2,3", "0,0,0", " 1 , 2,3", "1,2", "a,b,c", "1,2,3,4", "-1,2,3", "1_0,2,3",
+SHARDINGS = [None, "2,5,3", "6,0,9", "0,7,1", "6,15,10", "4,20,12", "12,3,64", "0,0,29", "1,2,3", "0,0,0", " 1 , 2,3", "1,2", "a,b,c", "1,2,3,4", "-1,2,3", "1_0,2,3",
              "18446744073709551616,0,0", "18446744073709551615,1,1", "", "3,,1", "+1,2,3", "1.0,2,3"]
 
 
@@ -192,6 +192,24 @@ def run(R):
         c["stored_values"] = None if c["dt"] in ("rgb", "complex64") else [v.item() for v in data.ravel()[:64]]
         cls = nib.Nifti2Image if c["nifti2"] else nib.Nifti1Image
         img = cls(data, c["aff"], dtype=data.dtype)
+        # NIfTI files carry TWO transforms: img.affine is the sform when sform_code > 0, else the qform.
+        # Stratified: both set and different (typical after registration), qform only, default (sform only).
+        xf = ["sform-only", "sform+other-qform", "sform-only", "qform-only", "sform+other-qform"][i % 5]
+        if c["dt"] != "rgb" and len(c["shape"]) >= 3:
+            if xf == "sform+other-qform":
+                qf = np.diag([rng.choice([0.7, 1.0, 2.5]), rng.choice([0.7, 1.0, 2.5]), rng.choice([0.4, 3.0]), 1.0])
+                qf[:3, 3] = [rng.uniform(-50, 50) for _ in range(3)]
+                img.set_sform(c["aff"], code=rng.choice([1, 2, 3, 4]))
+                img.set_qform(qf, code=rng.choice([1, 2]))
+            elif xf == "qform-only":
+                qf = np.diag([rng.choice([-1, 1]) * rng.choice([0.5, 1.0, 2.0]), rng.choice([0.7, 1.5]),
+                              rng.choice([0.4, 3.0]), 1.0])
+                qf[:3, 3] = [rng.uniform(-50, 50) for _ in range(3)]
+                img = cls(data, qf, dtype=data.dtype)
+                img.set_sform(None, code=0)
+                img.set_qform(qf, code=1)
+            c["xform"] = xf
+            R.count("nifti-transforms:" + xf)
         if c["scaling"]:
             img.header.set_slope_inter(2.0 if c.get("big") else rng.choice([2.0, 0.5, 1.0]),
                                        rng.choice([0.0, 1.0, -3.5]))
@@ -249,6 +267,7 @@ def run(R):
         else:
             impl = outcome_of(lambda: volume_to_precomputed.main(list(argv)))
         case = {"i": c["i"], "affine": faff.tolist(), "kind": c["akind"], "layout": c["layout"],
+                "nifti_transforms": c.get("xform", "sform-only"),
                 "shape": c["shape"], "dtype": c["dt"], "scaling": c["scaling"], "opts": c["opts"],
                 "nifti2": c["nifti2"], "subprocess": as_sub}
         offdiag = any(abs(faff[a, b]) > 0 for a in range(3) for b in range(3) if a != b)
